@@ -48,8 +48,8 @@ def gen(rnd, complete=None):
     pool = [rnd.random() for _ in range(3)]
     states = [rnd.choice(pool) if rnd.random() < 0.4 else rnd.choice([rnd.random(), rnd.randrange(1, 1 << 20) / (1 << 20), 0.5, 1e-9, 1 - 1e-9])
               for _ in nodes]
-    prior = rnd.choice([None, None, None, 'setup_exc', 'interrupt', 'normal'])
-    return dict(prior=prior, prior_states=[rnd.random() for _ in nodes], nodes=nodes, edges=[list(e) for e in edges], complete=comp, period=period, b=b, coupling=coupling, states=states,
+    prior = rnd.choice([None, None, None, 'setup_exc', 'interrupt', 'normal', 'cascade_exc', 'cascade_exc'])
+    return dict(fault_at=rnd.randint(2, 9), prior=prior, prior_states=[rnd.random() for _ in nodes], nodes=nodes, edges=[list(e) for e in edges], complete=comp, period=period, b=b, coupling=coupling, states=states,
                 dyn=rnd.choice(['sto', 'syn']), maxT=rnd.choice([2.0, 3.0, 5.0]) * max(1.0, period))
 
 
@@ -72,6 +72,11 @@ def run(spec):
 
     def cascade(t, n, m):
         perms[-1].append(m)
+        if st.get('cascade_fault') is not None:
+            st['cascade_fault'] -= 1
+            if st['cascade_fault'] <= 0:
+                st['cascade_fault'] = None
+                raise RuntimeError('injected in the middle of a cascade')
         return orig_cascade(t, n, m)
     p.cascade = cascade
     orig_fired = p.fired
@@ -151,6 +156,7 @@ def run(spec):
                 orig_init(); raise RuntimeError('injected in set-up')
             p.initialisePhases = bad
         if spec['prior'] == 'interrupt': st['interrupt_at'] = 2
+        if spec['prior'] == 'cascade_exc': st['cascade_fault'] = spec.get('fault_at', 3)       # the run dies inside an event handler, part of a cascade done
         try:
             rc0 = d.set(params).run(fatal=True)
             import copy
@@ -158,7 +164,7 @@ def run(spec):
         except (RuntimeError, KeyboardInterrupt):
             pass
         p.initialisePhases = orig_init
-        st.pop('interrupt_at', None)
+        st.pop('interrupt_at', None); st['cascade_fault'] = None
         handed = st.pop('handed', None)
         exp.clear(); perms.clear(); viol.clear(); sr.lines.clear(); info['events'] = 0; st['taps'] = []; st['groups'] = None; st.pop('lastid', None)
         st['handed'] = handed
